@@ -485,14 +485,27 @@ def part_from_matchfile(
     onset_in_beats = np.array([note.OnsetInBeats for note in snotes])
     unique_onsets, inv_idxs = np.unique(onset_in_beats, return_inverse=True)
 
-    iois_in_beats = np.diff(unique_onsets)
-    beat_to_quarter = 4 / beat_type_map_from_beats(onset_in_beats)
+    # Position in quarters as a function of the position in beats: piecewise
+    # linear, with 4 / beat_type quarters per beat from each time signature
+    # to the next one (a time signature can change between two onsets)
+    ts_times_in_beats = np.array([t for t, _, _ in ts], dtype=float)
+    ts_denominators = np.array([tsg.denominator for _, _, tsg in ts], dtype=float)
+    ts_times_in_quarters = np.cumsum(
+        np.r_[
+            ts_times_in_beats[0] * 4 / ts_denominators[0],
+            4 * np.diff(ts_times_in_beats) / ts_denominators[:-1],
+        ]
+    )
 
-    iois_in_quarters_offset = np.r_[
-        beat_to_quarter[0] * onset_in_beats[0],
-        (4 / beat_type_map_from_beats(unique_onsets[:-1])) * iois_in_beats,
-    ]
-    onset_in_quarters = np.cumsum(iois_in_quarters_offset)
+    def beats_to_quarters(time_in_beats):
+        idx = np.searchsorted(ts_times_in_beats, time_in_beats, side="right") - 1
+        idx = np.clip(idx, 0, None)
+        return (
+            ts_times_in_quarters[idx]
+            + (time_in_beats - ts_times_in_beats[idx]) * 4 / ts_denominators[idx]
+        )
+
+    onset_in_quarters = beats_to_quarters(unique_onsets)
     iois_in_quarters = np.diff(onset_in_quarters)
 
     # ___ these divs are relative to quarters;
@@ -502,8 +515,7 @@ def part_from_matchfile(
 
     part.set_quarter_duration(0, divs)
     bars = np.unique([n.Measure for n in snotes])
-    t = min_time
-    t = t * 4 / beat_type_map_from_beats(min_time)
+    t = float(beats_to_quarters(min_time))
     offset = t
     bar_times = {}
 
